@@ -331,6 +331,13 @@ func sanitizeOps(ops []model.Op, o *GenOpts) []model.Op {
 			if o.AvoidAncestorDescendant && a.Kind == "delete" && b.Kind != "delete" && model.Covers(EffectiveDelete(a.Path), b.Path) && a.Path.String() != b.Path.String() {
 				drop = true
 			}
+			// a delete beneath another delete of the same request is redundant, but its
+			// ROLLBACK is "ancestor tombstone + descendant write" in one change: the
+			// same listed finding (F-ancestor-delete-order) through the back door
+			if o.AvoidAncestorDescendant && a.Kind == "delete" && b.Kind == "delete" && model.Covers(EffectiveDelete(b.Path), EffectiveDelete(a.Path)) &&
+				(len(EffectiveDelete(b.Path)) < len(EffectiveDelete(a.Path)) || j < i) {
+				drop = true
+			}
 		}
 		if !drop {
 			out = append(out, a)
